@@ -68,6 +68,8 @@ def conformant_data(opname, variables, nonce):
                                "tags": [t for t in (inp.get("tags") or []) if isinstance(t, str)]}}
     if opname == "DoUpload":
         return {"upload": True}
+    if opname == "SearchNow":
+        return {"search": int(nonce[1:]) if nonce and nonce[1:].isdigit() else 0}
     return {"nonce": nonce}
 
 
